@@ -11,6 +11,14 @@ PY = "/venv/bin/python"
 
 # property -> (technique, level text, level note, design ref)
 CLAIMED = {
+    "C09": ("TLA+ specification of cumsum/cumprod (fibre prefixes), diff (n+1-cell windows, label rules per scheme, keepaxis padding) and "
+            "argmin/argmax (labels of the first extremum, NaN wins) in spec/Arrays.tla, enumerated by TLC with CumKeepsAxes / DiffAxis / ArgLaw theorems; replayed",
+            "TLC enumerates operated-axis lengths 1-4 (thorough 1-5) in increasing, decreasing and shuffled order, at every position of 1-3-d arrays, "
+            "n in 1..3 x three schemes x keepaxis, default axis, and argmin/argmax along the axis and over the whole array for every value pattern with "
+            "ties and NaNs on <= 3 cells (families beyond); the spec fixes windows, padding and resulting labels, NumPy evaluates the windows; the law "
+            "a[argmin()] == min() is checked on the spec and on the code.",
+            "Trusted: TLC, projection/concretisation, NumPy diff/cumsum/cumprod. Metadata of the relabelled (centered) axis is not compared.",
+            "5 (C09)"),
     "C08": ("TLA+ specification of reductions (spec/Arrays.tla Reduce: ordered fibres per output coordinate + NaN policy) enumerated by TLC with "
             "DropsOnlyAxis / Partition theorems; NumPy evaluates each fibre; compared with dimarray for 11 reductions and percentile",
             "TLC enumerates shapes with sizes 1-3 up to 3-d (thorough: all, plus 4-d), every NaN pattern for <= 4 cells and a slice/all/sparse family "
